@@ -11,8 +11,11 @@ PASS (exit 0): the new master comes up, is recorded in '<pidfile>.2', keeps
                serving after the old master is gone and takes over '<pidfile>'.
 FAIL (exit 1): the new master dies at start-up / nobody serves afterwards.
 """
+import os as _os
+_TREE_UNDER_TEST = _os.environ.get("GVERIF_REPO") or _os.getcwd()   # the checkout under test (was the auditing agent's scratch worktree)
+
 import sys
-sys.path.insert(0, "/tmp/wa_C14")
+sys.path.insert(0, _TREE_UNDER_TEST)
 
 import os
 import shutil
@@ -21,7 +24,7 @@ import socket
 import tempfile
 import time
 
-ROOT = "/tmp/wa_C14"
+ROOT = _TREE_UNDER_TEST
 PY = sys.executable
 
 LAUNCHER = """\
